@@ -1498,6 +1498,20 @@ fn binary_check<C: Label>(
                     "threshold": jd.thr, "tol": cfg.tol_eff(), "G": e.g_scale, "grad": fvec(&e.grad), "w": fvec(&w), "b": b, "objective": e.j, "oracle_minimum": j_star});
             }
         }
+        if fl != Fl::F64 {
+            // is it the configuration or the arithmetic? The same data and settings in f64: when that
+            // fit is stationary, the gradient code is right for this problem and the f32 run stopped
+            // short (argmin's line search / cost test in f32) - recorded as a finding of its own
+            if let FitOut::Ok(m64) = bin_fit::<C>(Fl::F64, x, ycls, ns, cfg, layout) {
+                let e64 = binary_eval(x, &t, cfg.alpha, &m64.w(), m64.b(), cfg.intercept);
+                let jd64 = judge_grad(&e64, cfg.tol_eff(), Fl::F64);
+                if jd64.g_inf <= jd64.thr {
+                    fail!("C12/binary/f32-fit-stops-short-where-the-f64-fit-converges", {"A_ratio": jd.g_inf / jd.thr, "case": ctxj, "grad_inf": jd.g_inf,
+                        "threshold": jd.thr, "tol": cfg.tol_eff(), "G": e.g_scale, "w": fvec(&w), "b": b, "objective": e.j, "oracle_minimum": j_star,
+                        "f64_grad_inf": jd64.g_inf, "f64_threshold": jd64.thr});
+                }
+            }
+        }
         if let Ok(dir) = std::env::var("C12_DUMP") {
             let _ = std::fs::write(format!("{dir}/binary-{}.json", c.idx), serde_json::to_string(&json!({
                 "x": x.rows().into_iter().map(|r| r.to_vec()).collect::<Vec<_>>(), "t": t, "alpha": alpha,
@@ -1719,6 +1733,17 @@ fn multi_check<C: Label>(
                         c.count("budget-exhausted");
                         return Err(inconclusive("iteration budget exhausted before the solver's own stop (still moving in the second half of the budget; the longer run errs)"));
                     }
+                }
+            }
+        }
+        if fl != Fl::F64 {
+            if let FitOut::Ok(m64) = multi_fit::<C>(Fl::F64, x, ycls, ns, cfg, layout) {
+                let e64 = multi_eval(x, &ycol, k, cfg.alpha, &m64.w().0, &m64.b(), cfg.intercept);
+                let jd64 = judge_grad(&e64, cfg.tol_eff(), Fl::F64);
+                if jd64.g_inf <= jd64.thr {
+                    fail!("C12/multi/f32-fit-stops-short-where-the-f64-fit-converges", {"A_ratio": jd.g_inf / jd.thr, "case": ctxj, "grad_inf": jd.g_inf,
+                        "threshold": jd.thr, "tol": cfg.tol_eff(), "G": e.g_scale, "objective": e.j, "oracle_minimum": j_star,
+                        "f64_grad_inf": jd64.g_inf, "f64_threshold": jd64.thr});
                 }
             }
         }
@@ -2564,11 +2589,27 @@ fn case_tweedie_random(c: &mut Case) -> Outcome {
                 "threshold": jd.thr, "G": e.g_scale, "grad": fvec(&e.grad), "coef": fvec(&w), "intercept": b,
                 "start_intercept": b_start, "objective": e.j});
         }
+        if let Ok(dir) = std::env::var("C12_DUMP") {
+            let _ = std::fs::write(format!("{dir}/tweedie-{}.json", c.idx), serde_json::to_string(&json!({
+                "x": d.f.x.rows().into_iter().map(|r| r.to_vec()).collect::<Vec<_>>(), "y": d.y, "alpha": alpha, "power": power, "link": format!("{lk:?}"),
+                "intercept": cfg.intercept, "tol": cfg.tol_eff(), "max_iter": cfg.max_iter, "w": fvec(&w), "b": b})).unwrap());
+        }
         if blocked && fl != Fl::F64 {
             // same limitation away from the start point: from the returned point no admissible
             // step along steepest descent lowers the documented objective sufficiently
             bail!("C12/tweedie/f32-line-search-blocked-at-returned-point", {"A_ratio": jd.g_inf / jd.thr, "case": ctxj, "grad_inf": jd.g_inf,
                 "threshold": jd.thr, "G": e.g_scale, "grad": fvec(&e.grad), "coef": fvec(&w), "intercept": b, "objective": e.j});
+        }
+        if fl != Fl::F64 {
+            if let FitOut::Ok(m64) = glm_fit(Fl::F64, &d.f.x, &d.y, &cfg, layout) {
+                let e64 = tweedie_eval(&d.f.x, &d.y, power, lk, cfg.alpha, &m64.w(), m64.b(), cfg.intercept);
+                let jd64 = judge_grad(&e64, cfg.tol_eff(), Fl::F64);
+                if jd64.g_inf <= jd64.thr {
+                    bail!("C12/tweedie/f32-fit-stops-short-where-the-f64-fit-converges", {"A_ratio": jd.g_inf / jd.thr, "case": ctxj, "grad_inf": jd.g_inf,
+                        "threshold": jd.thr, "tol": cfg.tol_eff(), "G": e.g_scale, "coef": fvec(&w), "intercept": b, "objective": e.j,
+                        "f64_grad_inf": jd64.g_inf, "f64_threshold": jd64.thr});
+                }
+            }
         }
         bail!("C12/tweedie/not-stationary", {"A_ratio": jd.g_inf / jd.thr, "case": ctxj, "grad_inf": jd.g_inf, "threshold": jd.thr, "tol": cfg.tol_eff(),
             "G": e.g_scale, "grad": fvec(&e.grad), "coef": fvec(&w), "intercept": b, "objective": e.j});
